@@ -59,6 +59,9 @@ checks = {
  "C16": dict(engine="adversarial name pool + text interpreters' scope resolvers + wref", technique="runtime monitoring: (1) every (word, declaration position) pair from a pool of adversarial names (reserved words / type names / intrinsics of the three targets taken from the interpreters' specification tables, naga's own helper and temporary spellings, case / digit / underscore variants, Unicode identifiers) in a template with known result, (2) injective adversarial renamings of generated programs; each emitted HLSL / MSL / GLSL text is scope-resolved by an independent front end (reserved identifier, redeclaration, unresolved reference = static trap), the entry point is looked up through EntryPointNames and the code is executed and compared with the expected result",
    text="Held on the (word, position, backend) triples observed (quick: a PRNG-chosen slice, thorough: the whole pool x 10 positions x 3 backends) outside five listed finding groups (gl_ prefix, HLSL sampler keywords, MSL simd/ulong, user functions named like texture built-ins, collisions with generated helper names).",
    note="Words whose status depends on compiler / language version / a using-directive (HLSL intrinsics and *_t types, metal:: type names, GLSL 4.60-only keywords, names containing __) are counted as not judged rather than as violations.", ref="DESIGN.md §4 C16"),
+ "C17": dict(engine="interface module generator + spvx decoder + annotation readers", technique="runtime monitoring: generated modules with 1-4 entry points of mixed stages, shared and unshared buffer resources, struct and bare stage interfaces, all stage builtins, random locations / interpolation / workgroup sizes and random binding maps per backend; the emitted SPIR-V binary is decoded independently and its entry points, execution modes, decorations, storage classes and interface lists are compared with the generator's records; register / [[buffer]] / binding / location / semantic annotations of the HLSL, MSL and GLSL text and the reported entry-point names are read back and compared with the supplied maps",
+   text="Held on the modules observed for buffer resources and stage interfaces; the missing Invariant decoration in SPIR-V is a listed finding.",
+   note="The generator's own records are the oracle. Text annotations are read with regular expressions anchored on unique identifier stems. Textures, samplers, binding arrays and the GLSL texture-sampler reflection are not generated (see DESIGN.md §4 C17).", ref="DESIGN.md §4 C17"),
 }
 pending = {}
 for p in ALL:
